@@ -77,6 +77,7 @@ type c43Spec struct {
 	HMs     int `json:"hb_ms"`
 	LatMs   int `json:"lat_ms"`
 	RetryMs int `json:"retry_ms"`
+	ReactMs int `json:"react_ms,omitempty"` // >0: after a rejected heartbeat keep heartbeating every hb_ms and re-join only after this delay
 	StartMs int `json:"start_ms"`
 	Fate    int `json:"fate"`
 	FateMs  int `json:"fate_ms"`
@@ -101,6 +102,7 @@ type c43Client struct {
 	next       time.Duration
 	lastReq    time.Duration
 	lastRefReq time.Duration // last join or heartbeat request
+	rejoinAt   time.Duration // slow re-join pending (ReactMs > 0)
 	joinedOnce bool
 	safe       bool
 	// recorded at the last request of a client that goes silent
@@ -405,11 +407,29 @@ func (s *c43Sim) heartbeat(c *c43Client) {
 	s.res.classes[fmt.Sprintf("hb/code%d", resp.ErrorCode)]++
 	switch resp.ErrorCode {
 	case protocol.NONE:
+		c.rejoinAt = 0
 		c.next = now + c43Ms(c.HMs)
 	case protocol.UNKNOWN_MEMBER_ID:
+		c.rejoinAt = 0
 		s.unknownMember(c, "heartbeat")
 		c.st, c.next = c43StJoining, now+c43Ms(c.LatMs)
 	default:
+		if c.ReactMs > 0 {
+			// slow client: it noticed the rebalance but needs ReactMs to get back with a
+			// JoinGroup; meanwhile its heartbeat thread keeps heartbeating every hb_ms.
+			if c.rejoinAt == 0 {
+				c.rejoinAt = now + c43Ms(c.ReactMs)
+				s.res.classes["hb/slow-rejoin-started"]++
+				if c.ReactMs > c.SessMs {
+					s.res.feats["slow-rejoin-longer-than-session"] = true
+				}
+			}
+			c.next = now + c43Ms(c.HMs)
+			if c.rejoinAt < c.next {
+				c.next = c.rejoinAt
+			}
+			return
+		}
 		c.st, c.next = c43StJoining, now+c43Ms(c.LatMs)
 	}
 }
@@ -531,6 +551,12 @@ func c43Simulate(t *testing.T, env c43Env, opts c43Opts) *c43Result {
 			sess := c43Ms(c.SessMs)
 			c.safe = c43Ms(c.HMs) < sess && c43Ms(c.LatMs) < sess && c43Ms(c.RetryMs) < sess &&
 				c43Ms(c.HMs+c.LatMs) < s.rtMin && c43Ms(c.RetryMs+c.LatMs) < s.rtMin
+			if c.ReactMs > 0 {
+				// keeps heartbeating every h < S while it takes ReactMs to re-join: the session
+				// clause protects it as long as the re-join still beats every rebalance deadline
+				c.safe = c.safe && c43Ms(c.HMs+c.ReactMs)+500*time.Millisecond < s.rtMin
+				res.classes["client/slow-rejoin"]++
+			}
 			if c.HMs+c.LatMs >= c.SessMs {
 				res.classes["client/hb-plus-latency-ge-session"]++
 			}
@@ -603,7 +629,13 @@ func c43Simulate(t *testing.T, env c43Env, opts c43Opts) *c43Result {
 				case c43StSyncing:
 					s.sync(who)
 				case c43StStable:
-					s.heartbeat(who)
+					if who.rejoinAt > 0 && s.now() >= who.rejoinAt {
+						who.rejoinAt = 0
+						s.res.classes["join/after-slow-reaction"]++
+						s.join(who)
+					} else {
+						s.heartbeat(who)
+					}
 				}
 			}
 			s.observe(-1)
@@ -654,9 +686,48 @@ func c43DrawCoincidence(t *rapid.T) c43Env {
 	return env
 }
 
+// c43DrawSlowRejoin draws the family "rebalance timeout >> session timeout, members keep
+// heartbeating but take longer than their session timeout to re-join an open rebalance".
+func c43DrawSlowRejoin(t *rapid.T, clampHB bool, excluded *int) c43Env {
+	env := c43Env{CleanupMs: rapid.SampledFrom([]int{1000, 1000, 2000, 3000}).Draw(t, "cleanup")}
+	rt := rapid.SampledFrom([]int{30000, 60000}).Draw(t, "reb")
+	n := rapid.IntRange(2, 4).Draw(t, "clients")
+	for i := 0; i < n; i++ {
+		sess := rapid.SampledFrom([]int{3000, 3000, 5000, 10000}).Draw(t, "sess")
+		sp := c43Spec{SessMs: sess, RebMs: rt}
+		sp.HMs = sess * rapid.SampledFrom([]int{5, 10, 20, 33, 50}).Draw(t, "hbfrac") / 100
+		sp.LatMs = rapid.SampledFrom([]int{5, 20, 50, 100}).Draw(t, "lat")
+		sp.RetryMs = rapid.SampledFrom([]int{100, 200, 500, 1000}).Draw(t, "retry")
+		slow := rapid.IntRange(0, 3).Draw(t, "slow") > 0
+		if slow && clampHB {
+			*excluded++
+		}
+		if slow && !clampHB {
+			// (while the heartbeat finding is listed this behaviour is the excluded predicate)
+			sp.ReactMs = rapid.SampledFrom([]int{sess + 300, sess + 1500, 2 * sess, 3 * sess, rt / 3}).Draw(t, "react")
+			if lim := rt - sp.HMs - 1500; sp.ReactMs > lim {
+				sp.ReactMs = lim
+			}
+		}
+		if i > 0 {
+			sp.StartMs = rapid.SampledFrom([]int{0, 300, 4000, 9000, 15000}).Draw(t, "start")
+		}
+		sp.StartMs += rapid.IntRange(0, 999).Draw(t, "startjit")
+		sp.Fate = rapid.SampledFrom([]int{c43FateRun, c43FateRun, c43FateRun, c43FateDie, c43FateLeave}).Draw(t, "fate")
+		if sp.Fate != c43FateRun {
+			sp.FateMs = sp.StartMs + rapid.SampledFrom([]int{500, 3000, 8000, 15000, 30000}).Draw(t, "fateafter") + rapid.IntRange(0, 2999).Draw(t, "fatejit")
+		}
+		env.Clients = append(env.Clients, sp)
+	}
+	return env
+}
+
 func c43DrawEnv(t *rapid.T, clampHB bool, excluded *int) c43Env {
-	if rapid.IntRange(0, 9).Draw(t, "family") < 4 {
+	switch fam := rapid.IntRange(0, 19).Draw(t, "family"); {
+	case fam < 6:
 		return c43DrawCoincidence(t)
+	case fam < 11:
+		return c43DrawSlowRejoin(t, clampHB, excluded)
 	}
 	env := c43Env{CleanupMs: rapid.SampledFrom([]int{1000, 2000, 3000, 5000}).Draw(t, "cleanup")}
 	n := rapid.IntRange(1, 4).Draw(t, "clients")
